@@ -405,6 +405,7 @@ func TestC14(t *testing.T) {
 		if trig {
 			classes = append(classes, "f9-trigger-region")
 		}
+		classes = uniq(classes)
 		sort.Strings(desc)
 		opDesc := strings.Join(desc, "; ")
 		rec.Case(v.Name+"|"+opDesc+"|"+m.Dump(), nt, classes...)
@@ -433,8 +434,9 @@ func TestC14(t *testing.T) {
 		}
 		// (3) no container without set descendants remains
 		var bad []string
+		ex := newExcuser(rec)
 		for _, l := range emptyContainers(got) {
-			if rec.Excuse(F53, l.inUL) {
+			if ex.excuse(F53, l.inUL) {
 				continue
 			}
 			bad = append(bad, l.path)
